@@ -406,10 +406,24 @@ fn edit_here(v: &JsVal, s: &mut Src) -> JsVal {
             4 => JsVal::Arr(kv.iter().map(|(_, x)| x.clone()).collect()),
             _ => arbitrary_leaf(s),
         },
-        JsVal::Str(x) => match s.below(4) {
+        JsVal::Str(x) => match s.below(7) {
             0 => JsVal::Str(format!("{}x", x)),
             1 => JsVal::Str(format!("x{}", x)),
             2 => JsVal::Str(s.pick(&STR_POOL).to_string()),
+            // character-level edits: what a template/regex built with a wrong escape or anchor would still accept
+            3 | 4 | 5 if !x.is_empty() => {
+                let cs: Vec<char> = x.chars().collect();
+                let i = s.below(cs.len());
+                let mut out: Vec<char> = cs.clone();
+                match s.below(3) {
+                    0 => {
+                        out.remove(i);
+                    }
+                    1 => out[i] = if cs[i].is_alphanumeric() { '|' } else { 'y' },
+                    _ => out.insert(i, cs[i]),
+                }
+                JsVal::Str(out.into_iter().collect())
+            }
             _ => arbitrary_leaf(s),
         },
         JsVal::Num(_) => match s.below(3) {
